@@ -450,6 +450,15 @@ def run(prog: Program, rep: Report, tier: str) -> None:
     wildcard(prog, rep)
     v1_translation(prog, rep)
     v1_filenames(prog, rep)
+    # the spellings agree only if a role left to its default gets the module the other spellings name: grid and
+    # forcing come from one module (a forcing class reads the attributes of its own module's grid)
+    rep.rule("R18.8", "default modules: grid and forcing default to the same module, every default class exists", 2)
+    gm, fm = prog.role_module.get("grid"), prog.role_module.get("forcing")
+    rep.check("R18.8", "model.init_module", f"default grid module ladim.{gm}, default forcing module ladim.{fm}", gm is not None and gm == fm, what_bad="a configuration that leaves the modules out gets a grid and a forcing of different modules, a configuration that names them does not: the spellings no longer describe the same simulation", what_ok="same module", loc="ladim/model.py")
+    for role, mod in sorted(prog.role_module.items()):
+        cls = prog.role_class.get(role)
+        rep.check("R18.8", "model.init_module", f"default {role}: ladim.{mod}.{cls}", mod in prog.modules and cls in prog.modules[mod].classes, what_bad=f"class {cls} does not exist in ladim/{mod}.py", what_ok="exists", loc="ladim/model.py")
+
 
 
 from ..selftest import Mut  # noqa: E402
